@@ -70,7 +70,7 @@ impl Encode for ShapeEncoder {
     fn encode(&self, w: &mut dyn EncWrite, _record: &log::Record) -> anyhow::Result<()> {
         let (t, i, shape) = TID.with(|x| x.borrow().clone());
         let fail_after = FAIL_AFTER.with(|x| *x.borrow());
-        if i % 2 == 1 {
+        if i % 2 == 1 && shape.iter().all(|n| *n == 1) {
             // every other record reaches the writer through write_fmt: a Display implementation hands over the
             // record one unit per write_str call (the thread gave it a shape of ones) - and, where the script says so,
             // gives up with fmt::Error after some of them
@@ -250,7 +250,10 @@ fn scenario(rng: &mut Rng, append_mode: bool, events: &Events, problems: &mut Ve
                 let ok = matches!(r, Ok(Ok(())));
                 ev.lock().unwrap().push(json!({"e": "end", "t": t, "i": i, "ok": ok, "scripted": scripted}));
                 if scripted {
-                    if !matches!(r, Ok(Err(_))) {
+                    // (a Display implementation that gives up makes the standard library's write_fmt panic - "a formatting
+                    // trait implementation returned an error when the underlying stream did not" -: for the records that
+                    // go through write_fmt the failure arrives as that panic, the lock is released all the same)
+                    if !matches!(r, Ok(Err(_))) && !(i % 2 == 1 && r.is_err()) {
                         probs.push(json!({"what": "the encoder's error was not returned by append", "t": t, "i": i}));
                     }
                     continue;
